@@ -25,9 +25,12 @@ def opOf (op : String) (ts : List String) : Option (Nat × AllocTree) :=
   let a : G := ⟨g "arank", g "asize", g "ab2k"⟩
   let k : K := ⟨g "krin", g "krout", g "ksize", g "kb2k", g "dnum", g "dsize"⟩
   match op with
-  | "split_mut" => some (g "cnt" * g "len", .par (g "cnt") (g "len") .done .done)
+  | "split_mut" => some (parNeed (g "cnt") (g "len"), .par (g "cnt") (g "len") .done .done)
   -- HAL
   | "vec_znx_normalize" => some (normTmp n, treeNormalize n)
+  | "vec_znx_normalize_assign" => some (normTmp n, treeNormalize n)
+  | "vec_znx_lsh_assign" => some (lshTmp n, treeLsh n)
+  | "vec_znx_rsh_assign" => some (rshTmp n, treeRsh n)
   | "vec_znx_lsh" => some (lshTmp n, treeLsh n)
   | "vec_znx_rsh" => some (rshTmp n, treeRsh n)
   | "vec_znx_rotate_assign" => some (oneLimbTmp n, treeOneLimb n)
@@ -53,6 +56,8 @@ def opOf (op : String) (ts : List String) : Option (Nat × AllocTree) :=
   | "lwe_encrypt_sk" => some (tbLwe n (g "size"), treeLweEncryptSk n (g "size"))
   | "lwe_decrypt" => some (tbLwe n (g "size"), treeLweDecrypt n (g "size"))
   | "glwe_encrypt_sk" => some (tbGlweEncryptSk be n res.size, treeGlweEncryptSk be n res)
+  | "glwe_encrypt_zero_sk" => some (tbGlweEncryptSk be n res.size, treeGlweEncryptSk be n res)
+  | "glwe_encrypt_zero_pk" => some (tbGlweEncryptPk be n res.size, treeGlweEncryptPk be n res (g "pksize"))
   | "glwe_encrypt_pk" => some (tbGlweEncryptPk be n res.size, treeGlweEncryptPk be n res (g "pksize"))
   | "glwe_decrypt" => some (tbGlweDecrypt be n res.size, treeGlweDecrypt be n res)
   | "glwe_normalize" => some (tbGlweNormalize n, treeGlweNormalize n)
